@@ -260,7 +260,7 @@ pub extern "sysv64" fn memory_read_byte(areas: *const MemoryAreas, addr: u16) ->
     }
   }
   if addr == 0xffff { // Interrupt Mask
-    return memory_areas.io.interrupt_mask;
+    return memory_areas.io.interrupt_mask | memory_areas.io.interrupt_mask_unused;
   }
   // High RAM
   memory_areas.high_ram[addr as usize & 0x7f]
@@ -325,6 +325,7 @@ pub extern "sysv64" fn memory_write_byte(areas: *mut MemoryAreas, addr: u16, val
   }
   if addr == 0xffff { // Interrupt Mask
     memory_areas.io.interrupt_mask = value & 0x1f;
+    memory_areas.io.interrupt_mask_unused = value & 0xe0;
     return;
   }
   {
